@@ -175,7 +175,7 @@ def run_case(i, rng, rec, tier, state):
         V = c["P"]
         s = cs.ConvexPolyhedron(V.copy())
         if aged:
-            info["history"] = aging.age(s, rng)
+            info["history"], _sib = aging.age_or_sibling(s, rng)
             V = np.array(s.vertices, float)
         h = geom.hull_facets(V)
         pts = points.points3d(rng, V, h.tris(), nb, lattice=bool(c.get("exact")) and not aged)
@@ -186,7 +186,7 @@ def run_case(i, rng, rec, tier, state):
         V, faces = c["V"], c["faces"]
         s = cs.Polyhedron(V.copy(), [list(f) for f in faces], faces_are_convex=True)
         if aged:
-            info["history"] = aging.age(s, rng, allow=("size", "move", "rigid"))
+            info["history"], _sib = aging.age_or_sibling(s, rng, allow=("size", "move", "rigid"))
             V = np.array(s.vertices, float)
         tris = geom.faces_to_tris(V, faces)
         pts = points.points3d(rng, V, tris, nb, lattice=bool(c["aligned"]) and c["kind"] == "voxel" and np.allclose(c["A"], np.eye(3)) and not aged)
@@ -215,7 +215,7 @@ def run_case(i, rng, rec, tier, state):
             rec.cls("curved:extreme-units")
         s = cs.Sphere(r, cen)
         if aged:
-            info["history"] = aging.age(s, rng)
+            info["history"], _sib = aging.age_or_sibling(s, rng)
             r, cen = float(s.radius), np.array(s.centroid, float)
         pts = _curved_points(rng, cen, [r, r, r], nb)
         rec.cls("Sphere")
@@ -229,7 +229,7 @@ def run_case(i, rng, rec, tier, state):
             rec.cls("curved:extreme-units")
         s = cs.Ellipsoid(ax[0], ax[1], ax[2], cen)
         if aged:
-            info["history"] = aging.age(s, rng)
+            info["history"], _sib = aging.age_or_sibling(s, rng)
             ax, cen = [float(s.a), float(s.b), float(s.c)], np.array(s.centroid, float)
         pts = _curved_points(rng, cen, ax, nb)
         rec.cls("Ellipsoid")
@@ -246,7 +246,7 @@ def run_case(i, rng, rec, tier, state):
         r = float(np.exp(rng.uniform(np.log(1e-3), np.log(10)))) * size
         s = cs.ConvexSpheropolyhedron(V.copy(), r)
         if aged:
-            info["history"] = aging.age(s, rng)
+            info["history"], _sib = aging.age_or_sibling(s, rng)
             V, r = np.array(s.vertices, float), float(s.radius)
         nb = min(nb, 400)
         h = geom.hull_facets(V)
